@@ -142,7 +142,25 @@ def _pipeline(spec, cfg, solve, out, stats):
         out["margin"] = {"error": repr(exc)[:100]}
     if solve:
         out["stage"] = "solve"
-        res = m.solveWall(MG.wall_settings(cfg))
+        coll = None
+        if cfg.get("offEq") and spec.get("particles"):
+            import pathlib
+            coll = MG.collisions_dir([p_.get("name", f"p{i_}") for i_, p_ in
+                                      enumerate(spec["particles"])],
+                                     int(cfg.get("N", 5)), kappa=float(cfg.get("kappa", 0.3)))
+            m.setPathToCollisionData(pathlib.Path(coll))
+        try:
+            res = m.solveWall(MG.wall_settings(cfg))
+        finally:
+            if coll:
+                import shutil
+                shutil.rmtree(coll, ignore_errors=True)
+        if cfg.get("offEq") and spec.get("particles") and res.Deltas is not None:
+            try:
+                out["Delta00_max_over_Tn2"] = float(
+                    np.max(np.abs(np.asarray(res.Deltas.Delta00.coefficients))) / Tn ** 2)
+            except Exception:
+                pass
         out["success"] = bool(res.success)
         out["solutionType"] = str(res.solutionType)
         out["vw"] = res.wallVelocity
@@ -177,3 +195,79 @@ def pressure_start_dependence(spec, cfg, vw):
     rtol = m.config.configEOM.pressRelErrTol
     rel = abs(out[0] - out[1]) / max(abs(out[0]), abs(out[1]), 1e-300)
     return out[0], out[1], rel, rtol
+
+
+def action_drop(eom, thermo, out):
+    """Is the wall-parameter set returned by EOM.wallPressure a local minimum of the real
+    EOM.action for the profiles of that very evaluation?  Returns (worst drop of the action
+    under +-10 % width / +-0.1 offset changes, direction, kinetic scale).  A drop below
+    -1e-3 scale means the parameters are > 10 % away from the minimum in that direction
+    (e.g. held by a bound)."""
+    import WallGo
+    _, wpf, bresf, bbgf, hydro = out
+    vl_ = thermo.freeEnergyLow(float(hydro.temperatureMinus)).fieldsAtMinimum
+    vh_ = thermo.freeEnergyHigh(float(hydro.temperaturePlus)).fieldsAtMinimum
+    Tprof = np.asarray(bbgf.temperatureProfile)[1:-1]
+    d00 = bresf.Deltas.Delta00
+
+    def act(wid, off):
+        return float(eom.action(WallGo.WallParams(widths=np.array(wid, float),
+                                                  offsets=np.array(off, float)),
+                                vl_, vh_, Tprof, d00))
+    w0, o0 = np.array(wpf.widths, float), np.array(wpf.offsets, float)
+    A0 = act(w0, o0)
+    worst, where = 0.0, None
+    for i in range(len(w0)):
+        for f in (0.9, 1.1):
+            w1 = w0.copy(); w1[i] *= f
+            dA = act(w1, o0) - A0
+            if dA < worst:
+                worst, where = dA, f"width[{i}] x {f}"
+        if i > 0:
+            for dd in (-0.1, 0.1):
+                o1 = o0.copy(); o1[i] += dd
+                dA = act(w0, o1) - A0
+                if dA < worst:
+                    worst, where = dA, f"offset[{i}] {dd:+}"
+    scale = float(np.sum((np.asarray(vh_) - np.asarray(vl_)) ** 2 / (6 * w0)))
+    return worst, where, scale
+
+
+def start_dependence_end_states(spec, cfg, vw):
+    """Second half of the mechanism probe: the two starts of pressure_start_dependence
+    again, now looking at the wall parameters each one ends with.  The known finding is a
+    start dependence between two *local minima of the action* (or an iteration stopped on
+    its successive-difference criterion); an end state that is not a stationary point of
+    the action (held by something else, e.g. a bound) is a different mechanism and must
+    not be absorbed.  Returns list of dicts (one per start)."""
+    import WallGo
+    b = MG.build(spec, cfg)
+    m, Tn = b["manager"], b["Tn"]
+    solver = m.setupWallSolver(MG.wall_settings(cfg))
+    eom = solver.eom
+    nf = b["pot"].fieldCount
+    res = []
+    for L0 in (cfg.get("wallThicknessGuess", 5.0), cfg.get("wallThicknessGuess", 5.0) / 2.5):
+        wp = WallGo.WallParams(widths=np.full(nf, L0 / Tn), offsets=np.zeros(nf))
+        out = eom.wallPressure(vw, wp)
+        worst, where, scale = action_drop(eom, m.thermodynamics, out)
+        res.append({"P": float(out[0]), "widthsTn": (np.asarray(out[1].widths) * Tn).tolist(),
+                    "offsets": np.asarray(out[1].offsets).tolist(),
+                    "action_drop_over_scale": worst / scale, "where": where,
+                    "stationary": bool(worst >= -1e-3 * scale)})
+    return res
+
+
+def start_dependence_is_early_stopping(spec, cfg, vw, rel):
+    """Second half of the mechanism probe.  A start dependence is the *known* mechanism
+    (iteration stopped on a small successive difference far from its fixed point) only if
+    letting the same iteration run on -- tolerance 100x tighter, 10x more iterations --
+    brings the two starts together (difference down by >= 3x, or inside the tight
+    tolerance).  If the two starts keep disagreeing, the iteration has start-dependent
+    *fixed points*, which is something else (e.g. a bound on the wall parameters that is
+    active from one start only) and must not be absorbed by the known finding.
+    Returns (is_early_stopping, rel_tight, rtol_tight)."""
+    rt = max(float(cfg.get("pressRelErrTol", 0.1)) * 1e-2, 1e-5)
+    cfg2 = dict(cfg, pressRelErrTol=rt, maxIterations=10 * int(cfg.get("maxIterations", 20)))
+    _, _, rel_t, _ = pressure_start_dependence(spec, cfg2, vw)
+    return bool(rel_t < rel / 3 or rel_t < 3 * rt), rel_t, rt
